@@ -124,6 +124,31 @@ pub open spec fn ev_of(n: ParserNumber) -> Ev {
 }
 
 impl<'de, R: Reader<'de>> Parser<R> {
+    // The in-place twins (parse_value / parse_array / parse_object / parse_string_inplace / parse_number_inplace) hand
+    // out `visit_borrowed_*` slices of the reader's own buffer and unescape in place through `cur_ptr`: they are
+    // only sound on the DOM's private padded copy (`PaddedSliceRead`; `Read::cur_ptr` panics). The copy-out parser
+    // verified here works on any reader, so it must never reach them: their contract is `requires false`.
+    #[verifier::external_body]
+    pub fn parse_value<V: JsonVisitor<'de>>(&mut self, visitor: &mut V) -> (res: Result<()>)
+        requires false,
+    { unimplemented!() }
+    #[verifier::external_body]
+    pub fn parse_array<V: JsonVisitor<'de>>(&mut self, vis: &mut V) -> (res: Result<()>)
+        requires false,
+    { unimplemented!() }
+    #[verifier::external_body]
+    pub fn parse_object<V: JsonVisitor<'de>>(&mut self, vis: &mut V) -> (res: Result<()>)
+        requires false,
+    { unimplemented!() }
+    #[verifier::external_body]
+    pub fn parse_string_inplace<V: JsonVisitor<'de>>(&mut self, vis: &mut V) -> (res: Result<()>)
+        requires false,
+    { unimplemented!() }
+    #[verifier::external_body]
+    pub fn parse_number_inplace<V: JsonVisitor<'de>>(&mut self, first: u8, vis: &mut V) -> (res: Result<()>)
+        requires false,
+    { unimplemented!() }
+
     // Parser::parse_number: index arithmetic around sonic_number::parse_number (verified in unit `number`:
     // consumes exactly number_end_l, classification/value exact for integers); assumed here.
     #[verifier::external_body]
